@@ -29,7 +29,7 @@ MINIMUM = {"distinct": 5000, "prefixes": 500, "audit_armed_loads": 5000}
 
 NDUMPS = {"quick": 40, "thorough": 400}
 NSH = {"quick": 16, "thorough": 32}
-SHARD_TIMEOUT = {"quick": 300, "thorough": 2400}
+SHARD_TIMEOUT = {"quick": 150, "thorough": 2400}
 
 OPS = b"@ABCDEFGHIJKLMNOPQRST"
 WATCHDOG_S = 5.0  # the loader is linear in its input; inputs are at most a few KB
